@@ -284,3 +284,15 @@ def check(repo, rep, tier):
   # an unsigned / narrow dtype
   from . import c06
   c06.rule_int_arith(repo, rep, methods=QUERY_VIEWS)
+  # d(x, y) = d(y, x), d(x, x) = 0 and pair_score = -pair_distance are
+  # statements about the SAME arrays evaluated twice: the distance views do
+  # not write into the arrays they are given (FRESH rule of C17, query views)
+  from . import c17 as _c17
+  before = len(rep.obs)
+  fl = len(rep.floors)
+  _c17.rule_writes(repo, rep)
+  rep.obs[before:] = [o for o in rep.obs[before:]
+                      if any('.%s:' % m in o['construct'] or
+                             o['construct'].endswith('.' + m)
+                             for m in QUERY_VIEWS + ['get_metric'])]
+  rep.floors = rep.floors[:fl]
